@@ -212,43 +212,10 @@ def decide(ctx, case, fn, p, label, env, s0, extra_classes):
 LARGE_FUNCTIONS = ['rooms', 'rooms', 'memory_rooms', 'crossing', 'empty', 'keydoor', 'teleport', 'memory']
 
 
-@st.composite
-def large_params_s(draw, fn, tier):
-    """one long dimension (many rooms / rivers along it), the other kept small so that the exhaustive search stays cheap"""
-    top = 72 if tier == 'quick' else 130
-    if fn in ('rooms', 'memory_rooms'):
-        L = draw(st.integers(5, top))
-        r = draw(st.integers(1, max(1, min(14, (L - 1) // 2))))
-        W = draw(st.sampled_from([5, 7, 9]))
-        lw = draw(st.integers(1, 2))
-        shape, layout = [L, W], [r, lw]
-        if draw(st.booleans()):
-            shape, layout = shape[::-1], layout[::-1]
-        p = {'shape': shape, 'layout': layout}
-        if fn == 'memory_rooms':
-            p.update({'colors': ['RED', 'GREEN', 'BLUE'], 'num_beacons': 1, 'num_exits': draw(st.integers(2, 3))})
-        return p
-    if fn == 'crossing':
-        L = draw(st.integers(2, 20)) * 2 + 1
-        W = draw(st.sampled_from([5, 7, 9, 11, 13]))
-        shape = [L, W] if draw(st.booleans()) else [W, L]
-        return {'shape': shape, 'num_rivers': draw(st.integers(1, 9))}
-    L = draw(st.integers(5, top))
-    W = draw(st.integers(5, 8))
-    shape = [L, W] if draw(st.booleans()) else [W, L]
-    if fn == 'memory':
-        if shape[1] % 2 == 0:
-            shape[1] += 1
-        return {'shape': shape, 'colors': ['RED', 'BLUE', 'GREEN']}
-    if fn == 'empty':
-        return {'shape': shape, 'random_agent': draw(st.booleans()), 'random_exit': draw(st.booleans())}
-    return {'shape': shape}
-
-
 def strat_large(tier):
     src = st.one_of(st.fixed_dictionaries({'seed': gen.seed_s}),
                     st.fixed_dictionaries({'mode': st.sampled_from(['low', 'high']), 'prefix': st.sampled_from([0, 1, 2, 4, 8, 16, 40, 200]), 'salt': st.integers(0, 7)}))
-    return st.sampled_from(LARGE_FUNCTIONS).flatmap(lambda fn: st.fixed_dictionaries({'fn': st.just(fn), 'p': large_params_s(fn, tier), 'rng': src}))
+    return st.sampled_from(LARGE_FUNCTIONS).flatmap(lambda fn: st.fixed_dictionaries({'fn': st.just(fn), 'p': c13.long_params_s(fn, tier), 'rng': src}))
 
 
 def oracle_large(case, ctx):
